@@ -244,12 +244,8 @@ fn parse_trace(dir: &Path, prefix: &str) -> Result<(i64, HashMap<usize, Vec<Stri
 /// the program the model assumes for `read_range(off, n)` (mirrors `progReadRange`), in the
 /// model's output syntax
 fn modelled_prog(len: u64, off: u64, n: u64) -> String {
-	if n == 0 {
+	if n == 0 || off + n > len {
 		"-".into()
-	} else if off + n <= len {
-		format!("p.s.{off}.{n}")
-	} else if off < len {
-		format!("p.s.{off}.{n},p.s.{len}.{}", off + n - len)
 	} else {
 		format!("p.s.{off}.{n}")
 	}
@@ -665,7 +661,12 @@ fn kernel_model_cases(args: &Args, out: &mut Out, rng: &mut Rng) {
 				1 => {
 					let off = rng.below(len + 3);
 					let k = rng.range(0, 9);
-					parse_prog(&modelled_prog(len, off, k))
+					// the pread loop of read_exact_at, also for ranges that end behind the file
+					if k > 0 && off < len && off + k > len {
+						vec![Sys::Pread(Ref::Shared, off, k), Sys::Pread(Ref::Shared, len, off + k - len)]
+					} else {
+						parse_prog(&modelled_prog(len, off, k))
+					}
 				}
 				_ => gen_prog(rng, len, iso_only),
 			})
